@@ -1,6 +1,7 @@
 import SqlModel.Default
 import SqlProofs.LexRegions
 import SqlProofs.LexDollar
+import SqlProofs.LexScan
 /-!
 # C14 — opaque regions are one token (character level)
 
@@ -99,6 +100,56 @@ theorem dollar_quoted (s : Array Cp) (p : Nat) (pre tag body rest : List Cp)
     firstMatch (defaultCfg.env s) defaultCfg.rules p
       = some (.tok T.Literal, p + (tag.length + 2) + body.length + (tag.length + 2)) :=
   dollar_quoted_token s p pre tag body rest h hp hlb htag hle hbody
+
+/-! ## from one scan step to the output of `lexer.tokenize`
+
+`Boundary defaultCfg (defaultCfg.env s) p` — `p` is a scan position of the lexer on `s`: 0, or the end of the token emitted at a scan
+position (`Boundary.zero`, `Boundary.next`; `scanNext` is the end of the match, or `p + 1` for an Error token).
+`textLen before` is the number of characters the tokens `before` spell. -/
+
+/-- position 0 is a scan position, and scan positions are closed under the emitted tokens -/
+theorem boundary_zero (s : Array Cp) : Boundary defaultCfg (defaultCfg.env s) 0 := Boundary.zero
+
+theorem boundary_next (s : Array Cp) (p : Nat) (hb : Boundary defaultCfg (defaultCfg.env s) p) (hlt : p < s.size) :
+    Boundary defaultCfg (defaultCfg.env s) (scanNext defaultCfg (defaultCfg.env s) p) := Boundary.next p hb hlt
+
+/-- scan positions are exactly the offsets at which the tokens of the output start (plus the end of the text) -/
+theorem boundary_iff_token_offset (s : Array Cp) (ts : List Tok) (h : lex defaultCfg s = .ok ts) (p : Nat) :
+    Boundary defaultCfg (defaultCfg.env s) p ↔ ∃ before after, ts = before ++ after ∧ textLen before = p :=
+  boundary_iff_offset s ts h p
+
+/-- **a scan step is a token of the output.** If `p` is a scan position and the scan step at `p` yields `(ty, e)` — which is what each
+region theorem above establishes — then `lex defaultCfg s` contains the token of type `ty` and value `s[p..e)` immediately after tokens
+that spell `s[0..p)`, and `e` is again a scan position. -/
+theorem lex_emits_region (s : Array Cp) (p : Nat) (ty : TType) (e : Nat)
+    (hb : Boundary defaultCfg (defaultCfg.env s) p)
+    (hfm : firstMatch (defaultCfg.env s) defaultCfg.rules p = some (.tok ty, e)) :
+    ∃ ts before after, lex defaultCfg s = .ok ts ∧ ts = before ++ ⟨ty, (s.extract p e).toList⟩ :: after ∧
+      textLen before = p ∧ Boundary defaultCfg (defaultCfg.env s) e :=
+  lex_emits s p ty e hb hfm
+
+/-- the composition, for single-quoted strings: at a scan position, `'body'` (well-formed body, not followed by `'`) is one
+`String.Single` token **of the token list `lex` returns**, with exactly the region as its value, and the position after the closing quote is
+the next scan position. -/
+theorem single_quoted_in_output (s : Array Cp) (p : Nat) (pre body rest : List Cp)
+    (h : s.toList = pre ++ [39] ++ body ++ [39] ++ rest) (hp : pre.length = p)
+    (hb : Boundary defaultCfg (defaultCfg.env s) p) (hq : QBody 39 true body) (hr : rest.head? ≠ some 39) :
+    ∃ ts before after, lex defaultCfg s = .ok ts ∧ ts = before ++ ⟨T.StringSingle, [39] ++ body ++ [39]⟩ :: after ∧
+      textLen before = p ∧ Boundary defaultCfg (defaultCfg.env s) (p + ([39] ++ body ++ [39]).length) := by
+  refine region_in_lex s p pre ([39] ++ body ++ [39]) rest T.StringSingle (by simpa using h) hp hb ?_
+  have := single_quoted s p pre body rest h hp hq hr
+  rw [this]; simp; omega
+
+/-- the same for block comments: after any prefix that ends at a scan position, `/*body*/` is one `Comment.Multiline` token of the output -/
+theorem block_comment_in_output (s : Array Cp) (p : Nat) (pre body rest : List Cp)
+    (h : s.toList = pre ++ [47, 42] ++ body ++ [42, 47] ++ rest) (hp : pre.length = p)
+    (hb : Boundary defaultCfg (defaultCfg.env s) p)
+    (hplus : body.head? ≠ some 43) (hno : ¬ [42, 47] <:+: body) (hle : ∀ c ∈ body, c ≤ 1114111) :
+    ∃ ts before after, lex defaultCfg s = .ok ts ∧ ts = before ++ ⟨T.CommentMultiline, [47, 42] ++ body ++ [42, 47]⟩ :: after ∧
+      textLen before = p ∧ Boundary defaultCfg (defaultCfg.env s) (p + ([47, 42] ++ body ++ [42, 47]).length) := by
+  refine region_in_lex s p pre ([47, 42] ++ body ++ [42, 47]) rest T.CommentMultiline (by simpa using h) hp hb ?_
+  have := block_comment s p pre body rest h hp hplus hno hle
+  rw [this]; simp; omega
 
 /-! ## non-vacuity -/
 
